@@ -5,8 +5,15 @@ package quic_test
 // of client datagrams; the wire observer evaluates the 3x bound before every server datagram.
 
 import (
+	"context"
 	"fmt"
 	"testing"
+	"testing/synctest"
+	"time"
+
+	tls "github.com/refraction-networking/utls"
+
+	quic "github.com/refraction-networking/uquic"
 
 	"github.com/refraction-networking/uquic/internal/verif/evlog"
 	"github.com/refraction-networking/uquic/internal/verif/quicworld"
@@ -89,4 +96,154 @@ func TestVerifC14Wire(t *testing.T) {
 			c.Sample("limit-reached", map[string]any{"case": cc.Name, "checks": checks, "datagrams_crossing_limit": crossing})
 		}
 	})
+}
+
+// ---- 0-RTT arrivals before the ClientHello is complete ---------------------------------------
+//
+// A resuming client sends 0-RTT packets right behind its Initial packets.  When the second half of the
+// ClientHello is late, the server cannot decrypt the 0-RTT packets yet, buffers them, and processes them
+// again once the keys exist.  Those datagrams were received once: they count once towards three times the
+// bytes received.  The client then stays silent (everything it sends later is lost), the certificate
+// chain is long: the server runs into the limit, and the observer checks it before every datagram.
+
+type c14EarlyCase struct {
+	Name    string `json:"name"`
+	Client  string `json:"client"`
+	Chain   int    `json:"chain"`
+	DelayMs int    `json:"delay_ms"` // of the client's second Initial datagram
+	Payload int    `json:"payload"`  // bytes written as 0-RTT data
+}
+
+func TestVerifC14WireEarlyData(t *testing.T) {
+	l := evlog.Open("C14")
+	defer l.Close()
+	var cases []c14EarlyCase
+	for _, cl := range []string{"plain", "unil"} {
+		for _, chain := range []int{2, 6, 10, 13} {
+			for _, delay := range []int{0, 12, 30, 80} {
+				for _, pl := range []int{1000, 5000, 12000, 30000} {
+					if !l.Thorough() && (chain/2+delay+pl/1000)%2 == 1 {
+						continue
+					}
+					cases = append(cases, c14EarlyCase{Name: fmt.Sprintf("early/%s/chain%d/delay%d/payload%d", cl, chain, delay, pl), Client: cl, Chain: chain, DelayMs: delay, Payload: pl})
+				}
+			}
+		}
+	}
+	for i, cs := range cases {
+		if !l.Mine(i) {
+			continue
+		}
+		c := l.Begin("C14/"+cs.Name, cs)
+		if c == nil {
+			continue
+		}
+		synctest.Test(t, func(t *testing.T) { runC14Early(l, c, &cs) })
+		c.End()
+	}
+}
+
+func runC14Early(l *evlog.Log, c *evlog.Case, cs *c14EarlyCase) {
+	cache := tls.NewLRUClientSessionCache(4)
+	opt := quicworld.Options{RTT: 10 * time.Millisecond, Early: true, CertIntermediates: cs.Chain,
+		ClientTLS:  func(c *tls.Config) { c.ClientSessionCache = cache },
+		// long handshake time-outs: the server's PTO probes (two full-size datagrams each, with back-off) go on
+		// until the limit stops them
+		ServerConf: &quic.Config{Allow0RTT: true, MaxIdleTimeout: 20 * time.Second, HandshakeIdleTimeout: 300 * time.Second},
+		ClientConf: &quic.Config{MaxIdleTimeout: 20 * time.Second, HandshakeIdleTimeout: 300 * time.Second}}
+	if cs.Client == "unil" {
+		opt.ClientKind = "unil"
+	}
+	w, err := quicworld.New(opt)
+	if err != nil {
+		c.Violation("C14|harness|world", err.Error(), nil)
+		return
+	}
+	defer func() {
+		w.Close()
+		time.Sleep(700 * time.Second)
+	}()
+	bg := context.Background()
+	// priming connection: session ticket
+	{
+		ctx, cancel := context.WithTimeout(bg, 20*time.Second)
+		done := make(chan *quic.Conn, 1)
+		go func() {
+			sc, _ := w.Accept(ctx)
+			done <- sc
+		}()
+		cc, err := w.Dial(ctx)
+		sc := <-done
+		if err != nil || sc == nil {
+			cancel()
+			c.Violation("C14|harness|priming-failed", fmt.Sprint(err), nil)
+			return
+		}
+		select {
+		case <-cc.HandshakeComplete():
+		case <-time.After(2 * time.Second):
+		}
+		time.Sleep(300 * time.Millisecond)
+		cc.CloseWithError(0, "")
+		sc.CloseWithError(0, "")
+		cancel()
+		time.Sleep(time.Second)
+	}
+	w.Wire.ResetOrdinals()
+	// the measured dial: the second client datagram is late, and nothing the client sends after its first
+	// burst (Initial datagrams and 0-RTT data, all emitted at once) arrives
+	t0 := w.Router.Now()
+	w.Router.SetOnEmit(func(d *wiretap.DatagramInfo) *simworld.Action {
+		if d.Dir != wiretap.C2S {
+			return nil
+		}
+		switch {
+		case w.Router.Now()-t0 > time.Millisecond:
+			return &simworld.Action{Kind: "drop"}
+		case d.Ordinal == 1 && cs.DelayMs > 0:
+			return &simworld.Action{Kind: "delay", Delay: time.Duration(cs.DelayMs) * time.Millisecond}
+		}
+		return nil
+	})
+	ctx, cancel := context.WithTimeout(bg, 400*time.Second)
+	defer cancel()
+	accCh := make(chan *quic.Conn, 1)
+	go func() {
+		sc, _ := w.Accept(ctx)
+		accCh <- sc
+	}()
+	cc, err := w.DialEarly(ctx)
+	if err == nil {
+		if s, err := cc.OpenStreamSync(ctx); err == nil {
+			s.Write(make([]byte, cs.Payload))
+		}
+	}
+	// let the server run into its limit
+	time.Sleep(250 * time.Second)
+	if cc != nil {
+		cc.CloseWithError(0, "")
+	}
+	cancel()
+	if sc := <-accCh; sc != nil {
+		sc.CloseWithError(0, "")
+	}
+	var checks, crossing, zero int64
+	for _, tp := range w.Wire.Snapshot() {
+		checks += tp.Counts["c14_amplification_checks"]
+		crossing += tp.Counts["c14_datagrams_crossing_limit"]
+		zero += tp.Counts["pkt_c->s_0-RTT"]
+		for _, a := range tp.Anomalies {
+			if a.Prop == "C14" {
+				c.Violation(a.Sig+"|early-data", a.Detail, map[string]any{"case": cs, "wire": tp.Describe(40)})
+			}
+		}
+	}
+	fp := ""
+	if checks > 0 && zero > 0 {
+		fp = cs.Name
+	}
+	c.Eval(fp)
+	l.Count("early_amplification_checks_on_wire", checks)
+	l.Count("early_server_datagrams_reaching_the_limit", crossing)
+	l.Count("early_client_0rtt_packets", zero)
 }
